@@ -333,6 +333,9 @@ func gen(r *lib.Rand, tier string, emit func(string)) {
 		if r.Chance(20) {
 			ln = r.Intn(65536)
 		}
+		if ty != 0 && r.Chance(70) {
+			ln = 0 // coherent Ethernet II layer (a non-zero Length with an EtherType is always rejected)
+		}
 		n := r.Pick(psizes)
 		if r.Chance(25) {
 			n = r.Intn(1600)
